@@ -476,6 +476,8 @@ auto req_compactor<T, C, A>::deserialize_items(const void* bytes, size_t size, c
 -> std::pair<std::unique_ptr<T, items_deleter>, size_t> {
   const char* ptr = static_cast<const char*>(bytes);
   const char* end_ptr = static_cast<const char*>(bytes) + size;
+  // num came from the image: no serialized item is shorter than one byte, so more items than bytes is a corrupt count
+  if (num > size) throw std::out_of_range("Possible corruption: number of items exceeds the size of the image");
   A alloc(allocator);
   std::unique_ptr<T, items_deleter> items(alloc.allocate(num), items_deleter(allocator, false, num));
   ptr += serde.deserialize(ptr, end_ptr - ptr, items.get(), num);
